@@ -59,6 +59,11 @@ func init() {
 		},
 		symPkg + "Not":      func(fr *frame, a []value) value { return mkBool(fr.i.ps.ts.Not(fr.i.ps.lift(a[0]))) },
 		symPkg + "Hash":     extSymHash,
+		symPkg + "AllocLimit": func(fr *frame, a []value) value {
+			fr.i.ps.allocLimit = asInt64(a[0])
+			return nil
+		},
+		symPkg + "CheckAlloc": extNop,
 		symPkg + "Concrete": func(fr *frame, a []value) value { return !isSym(a[0]) },
 		symPkg + "Engine":   func(fr *frame, a []value) value { return true },
 		symPkg + "Tier":     func(fr *frame, a []value) value { return fr.i.ps.cfg.Tier },
@@ -185,7 +190,7 @@ func init() {
 		"internal/bytealg.Compare":          extCompare,
 		"internal/bytealg.CompareString":    extCompare,
 		"internal/bytealg.MakeNoZero": func(fr *frame, a []value) value {
-			n := fr.i.ps.makeLen(a[0], "MakeNoZero")
+			n := fr.i.ps.makeLen(a[0], "MakeNoZero", 1)
 			s := make([]value, n)
 			for i := range s {
 				s[i] = uint8(0)
